@@ -82,6 +82,26 @@ pub fn run(tier: &str, seed: u64, dir: &str) {
             let op = h.done();
             sink.case(&op, &eval(&op), "floor-then-raise", true);
         }
+        // the fixed plans' data-rate tables have a gap (US915: DR0-4, DR8-13; AU915: DR0-6, DR8-13):
+        // an application override above the gap (`set_datarate` accepts it) still has a "next lower
+        // region-defined rate" below the gap — ADRACKReq is due, and the back-off steps across the gap
+        if is_fixed(region) {
+            for (k, dr) in [8u8, 9, 13, 10].into_iter().enumerate() {
+                let mut h = Hist::new("C12", region, 20, 0, 300 + k as u64, &[], None);
+                h.go_live();
+                h.sess(rng.below(1000) as u32, None, [60u32, 0, 90, 63][k], false, &[], false);
+                h.ev(&format!("dr {}", dr));
+                for _ in 0..110 {
+                    if h.dead {
+                        break;
+                    }
+                    h.send(1 + rng.below(3) as u8, false, &[7]).timeout();
+                }
+                h.snap();
+                let op = h.done();
+                sink.case(&op, &eval(&op), "override-above-the-table-gap", true);
+            }
+        }
         let n = if thorough { 500 } else { 30 };
         for i in 0..n {
             let drs = uplink_drs(region);
